@@ -180,14 +180,14 @@ func init() {
 // ---------- column definitions ----------
 
 type colSpec struct {
-	strs                  [5][]byte // schema, table, org_table, name, org_name (nil = NULL string)
-	ext                   []byte    // MariaDB extended type info content (nil = capability off)
-	charset               uint16
-	length                uint32
-	typ                   byte
-	flags                 uint16
-	decimals              byte
-	dflt                  []byte // nil = no default block
+	strs     [5][]byte // schema, table, org_table, name, org_name (nil = NULL string)
+	ext      []byte    // MariaDB extended type info content (nil = capability off)
+	charset  uint16
+	length   uint32
+	typ      byte
+	flags    uint16
+	decimals byte
+	dflt     []byte // nil = no default block
 }
 
 func (c colSpec) encode() []byte {
@@ -435,13 +435,13 @@ func runMyExecuteDeep(r *core.Run) {
 // ---------- PostgreSQL RowDescription / ParameterDescription ----------
 
 type pgField struct {
-	name                     []byte
-	tableOID                 uint32
-	attr                     uint16
-	typeOID                  uint32
-	size                     uint16
-	mod                      uint32
-	format                   uint16
+	name     []byte
+	tableOID uint32
+	attr     uint16
+	typeOID  uint32
+	size     uint16
+	mod      uint32
+	format   uint16
 }
 
 func pgEncodeRowDesc(fs []pgField) []byte {
